@@ -17,6 +17,9 @@ CHECKS = {
  "C04": (MC, "TLC: Asm.tla two-pass assembler model over every emitted function (true Enc6502 sizes vs size_bytes)", "6.C04",
          "Every function emitted for the corpus (GenProg sample x placements zero page/ramchip/superchip/3E/3E+ x -O0/-O1, label-stress programs) is consumed line by line by Asm.tla; the sum of true sizes must equal the reported size.",
          "Trusted: Enc6502 table (self-checked), dasm's zero-page selection rule as modelled by ResolveMode, harness layout (non-zero-page classes >= $100)."),
+ "C07": (MC, "TLC: GenCond generator + CppRef reference semantics, replay into the real preprocessor (hook H2); CppImpl==CppRef invariant; CppTrace trace validation", "6.C07",
+         "GenCond.tla enumerates every well-nested directive sequence up to the bound (exhaustive over the minimal condition alphabet, simulated over the rich one) together with the outcome the reference semantics CppRef prescribes (kept lines, final macro table, #error); each is run through the real preprocessor and compared. TLC also checks, on every sequence, that the implementation-shaped three-state machine CppImpl equals CppRef, and validates recorded H2 event traces against CppImpl.",
+         "Trusted: TLC, CppRef (first-true-branch rule), renderer of directive lines. Condition operators limited to those the property names."),
  "C13": (MC, "TLC: Asm.tla legality/label acceptance over every emitted function", "6.C13",
          "Every emitted function of the corpus (as C04, plus label-stress programs: repeated/nested inlining, goto labels, loops and early returns in inlined code, long-branch repair) must use only (mnemonic, mode) pairs of the 6502, define each label once and define every reference.",
          "Trusted: Enc6502 table, harness operand splitter. Inline-function bodies are templates and are judged only where expanded."),
